@@ -24,6 +24,7 @@ import (
 
 type oaWalker struct {
 	name    string
+	recv    string // receiver name of the analysed function ("" for closures / plain functions)
 	params  map[string]int
 	locals  map[string]bool
 	atoms   *int
@@ -442,47 +443,142 @@ func oaParams(ft *ast.FuncType) map[string]int {
 	return m
 }
 
-// provenance of an identifier used as an argument: every value assigned to it in the body, canonical
-func oaProv(w *oaWalker, body *ast.BlockStmt, e ast.Expr) []string {
-	id, ok := e.(*ast.Ident)
-	if !ok {
-		return []string{w.canon(e)}
+// oaPkg: the package whose helpers provenance may look into (set while a package's functions are analysed)
+var oaPkg *pkg
+
+// oaHelper resolves a call to a same-package function / method with exactly one result.
+func oaHelper(w *oaWalker, c *ast.CallExpr) *ast.FuncDecl {
+	if oaPkg == nil {
+		return nil
 	}
-	if _, isParam := w.params[id.Name]; isParam {
-		return []string{w.canon(e)}
-	}
-	set := map[string]bool{}
-	ast.Inspect(body, func(n ast.Node) bool {
-		switch v := n.(type) {
-		case *ast.AssignStmt:
-			for i, l := range v.Lhs {
-				if li, ok := l.(*ast.Ident); ok && li.Name == id.Name {
-					if len(v.Rhs) == len(v.Lhs) {
-						set[w.canon(v.Rhs[i])] = true
-					} else {
-						set["multi:"+w.canon(v.Rhs[0])] = true
-					}
+	var fd *ast.FuncDecl
+	switch f := c.Fun.(type) {
+	case *ast.Ident:
+		fd = oaPkg.funcs[f.Name]
+	case *ast.SelectorExpr:
+		// only methods called on the analysed function's own receiver (an interface value may have a method of the same name)
+		if id, ok := f.X.(*ast.Ident); ok && w.recv != "" && id.Name == w.recv {
+			n := 0
+			for _, ms := range oaPkg.methods {
+				if d := ms[f.Sel.Name]; d != nil {
+					fd = d
+					n++
 				}
 			}
-		case *ast.ValueSpec:
-			for i, n := range v.Names {
-				if n.Name == id.Name {
-					if i < len(v.Values) {
-						set[w.canon(v.Values[i])] = true
-					} else {
-						set["zero"] = true
-					}
-				}
+			if n != 1 {
+				fd = nil
 			}
 		}
-		return true
-	})
-	var out []string
-	for k := range set {
-		out = append(out, k)
 	}
-	sort.Strings(out)
-	return out
+	if fd == nil || fd.Type.Results == nil || len(fd.Type.Results.List) != 1 || len(fd.Type.Results.List[0].Names) > 1 {
+		return nil
+	}
+	return fd
+}
+
+// provenance of an expression used as an argument: every value it can hold — through the assignments to a local and
+// through the return statements of a same-package helper (its parameters replaced by the caller's arguments), so that
+// extracting `if x == "" { x = "lit" }` into a helper keeps the table, while a helper that computes anything else
+// (slicing, concatenation, another source) shows up in it.
+func oaProv(w *oaWalker, body *ast.BlockStmt, e ast.Expr) []string {
+	out := oaProvDepth(w, body, e, 0)
+	set := map[string]bool{}
+	var res []string
+	for _, s := range out {
+		if !set[s] {
+			set[s] = true
+			res = append(res, s)
+		}
+	}
+	sort.Strings(res)
+	return res
+}
+
+func oaProvDepth(w *oaWalker, body *ast.BlockStmt, e ast.Expr, depth int) []string {
+	switch v := e.(type) {
+	case *ast.ParenExpr:
+		return oaProvDepth(w, body, v.X, depth)
+	case *ast.CallExpr:
+		if fd := oaHelper(w, v); fd != nil && depth < 3 && fd.Body != nil {
+			hp := oaParams(fd.Type)
+			hw := &oaWalker{name: fd.Name.Name, recv: recvName(fd), params: hp, locals: oaLocals(recvName(fd), fd.Body, hp), ops: w.ops, atoms: w.atoms, conds: w.conds,
+				assigns: map[string][]string{}, notes: map[string][]string{}}
+			var out []string
+			var visit func(n ast.Node) bool
+			visit = func(n ast.Node) bool {
+				switch r := n.(type) {
+				case *ast.FuncLit:
+					return false
+				case *ast.ReturnStmt:
+					if len(r.Results) != 1 {
+						out = append(out, "?"+w.canon(e))
+						return false
+					}
+					for _, s := range oaProvDepth(hw, fd.Body, r.Results[0], depth+1) {
+						// the helper's parameters are the caller's arguments
+						if len(s) >= 2 && s[0] == '#' && strings.Trim(s[1:], "0123456789") == "" {
+							var j int
+							_, _ = fmt.Sscanf(s[1:], "%d", &j)
+							if j < len(v.Args) {
+								out = append(out, oaProvDepth(w, body, v.Args[j], depth+1)...)
+								continue
+							}
+						}
+						if strings.Contains(s, "#") {
+							s = "helper " + fd.Name.Name + ": " + s // something computed from a parameter: keep it visible
+						}
+						out = append(out, s)
+					}
+					return false
+				}
+				return true
+			}
+			ast.Inspect(fd.Body, visit)
+			if len(out) > 0 {
+				return out
+			}
+		}
+		return []string{w.canon(e)}
+	case *ast.Ident:
+		if _, isParam := w.params[v.Name]; isParam || !w.locals[v.Name] {
+			return []string{w.canon(e)}
+		}
+		var out []string
+		ast.Inspect(body, func(n ast.Node) bool {
+			switch a := n.(type) {
+			case *ast.AssignStmt:
+				for i, l := range a.Lhs {
+					if li, ok := l.(*ast.Ident); ok && li.Name == v.Name {
+						if len(a.Rhs) == len(a.Lhs) {
+							if depth < 3 {
+								out = append(out, oaProvDepth(w, body, a.Rhs[i], depth+1)...)
+							} else {
+								out = append(out, w.canon(a.Rhs[i]))
+							}
+						} else {
+							out = append(out, "multi:"+w.canon(a.Rhs[0]))
+						}
+					}
+				}
+			case *ast.ValueSpec:
+				for i, n := range a.Names {
+					if n.Name == v.Name {
+						if i < len(a.Values) {
+							out = append(out, oaProvDepth(w, body, a.Values[i], depth+1)...)
+						} else {
+							out = append(out, "zero")
+						}
+					}
+				}
+			}
+			return true
+		})
+		if len(out) == 0 {
+			return []string{w.canon(e)}
+		}
+		return out
+	}
+	return []string{w.canon(e)}
 }
 
 // flatten a + b + c
@@ -566,7 +662,7 @@ func genObsApp1(repo string) string {
 	var facts []fact
 	mk := func(name string, ft *ast.FuncType, recv string, body *ast.BlockStmt, retOp func(w *oaWalker, r []ast.Expr) string) (*oaWalker, S) {
 		params := oaParams(ft)
-		w := &oaWalker{name: name, params: params, locals: oaLocals(recv, body, params), atoms: &atoms, conds: &conds, ops: ops,
+		w := &oaWalker{name: name, recv: recv, params: params, locals: oaLocals(recv, body, params), atoms: &atoms, conds: &conds, ops: ops,
 			retOp: retOp, assigns: map[string][]string{}, notes: map[string][]string{}}
 		first := atoms
 		s := w.block(body.List)
@@ -583,7 +679,9 @@ func genObsApp1(repo string) string {
 	isNil := func(e ast.Expr) bool { id, ok := e.(*ast.Ident); return ok && id.Name == "nil" }
 
 	// ---- app recorder
+	oaPkg = app
 	d := method(app, "observabilityRecorder", "OnRequestStart")
+	startFirst := atoms
 	w, _ := mk("appOnRequestStart", d.Type, recvName(d), d.Body, func(w *oaWalker, r []ast.Expr) string {
 		if len(r) != 2 {
 			fatalf(d.Pos(), "OnRequestStart: return with %d results", len(r))
@@ -593,6 +691,7 @@ func genObsApp1(repo string) string {
 		}
 		return "retState"
 	})
+	facts = append(facts, fact{"startFirstAtom", fmt.Sprint(startFirst), "atom of the first condition of OnRequestStart (the exclusion test)"})
 	facts = append(facts, fact{"startSpanAssignedTo", oaStrList(w.assigns["spanStart"]), "fields of the state the results of StartSpan are assigned to"})
 	facts = append(facts, fact{"startMetricsAssignedTo", oaStrList(w.assigns["metricsBegin"]), "fields of the state the result of BeginRequest is assigned to"})
 
@@ -643,6 +742,7 @@ func genObsApp1(repo string) string {
 	facts = append(facts, fact{"endFirstAtom", fmt.Sprint(endFirst), "atom of the first condition of OnRequestEnd (the state guard)"})
 
 	// ---- metrics recorder
+	oaPkg = met
 	d = method(met, "Recorder", "BeginRequest")
 	w, _ = mk("metricsBeginRequest", d.Type, recvName(d), d.Body, func(w *oaWalker, r []ast.Expr) string {
 		if len(r) == 1 && isNil(r[0]) {
